@@ -1,4 +1,15 @@
-(* C03 — placeholder until the theorems land *)
-From Sigtools.Model Require Import Base Bind Algebra.
-Theorem C03_placeholder : True. Proof. exact I. Qed.
-Print Assumptions C03_placeholder.
+(* C03 — mask: exact residual signature after n positionals and named arguments. *)
+From Sigtools.Model Require Import Base Bind Roles Algebra.
+From Sigtools.Proofs Require Import SmallModel Basics.
+
+Theorem C03_wf s n names0 h r : mask s n names0 h = Ok r -> validate (params r) = true.
+Proof. exact (mask_wf s n names0 h r). Qed.
+Print Assumptions C03_wf.
+
+Theorem C03_only_value_errors s n h named pm : benign (mask_gen s n h named pm).
+Proof. exact (mask_gen_only_value_errors s n h named pm). Qed.
+Print Assumptions C03_only_value_errors.
+
+Theorem C03_small_model sigs s c : In s sigs -> accepts s (rep_for sigs c) = accepts s c.
+Proof. exact (accepts_rep sigs s c). Qed.
+Print Assumptions C03_small_model.
